@@ -17,6 +17,8 @@ EXPLANATION = (
     "prefix_string::{encode,decode} pass size-1 to the integer codec, use the lowest flag bit as the Huffman flag on "
     "both sides, and check the declared length against the buffer before copying. Round trips for all strings and "
     "strictness of Huffman padding are value-level and not decided.")
+# every anchor of these rules lives in the h3 crate: thorough tier repeats them on the feature-less build
+EXTRA_CONFIGS = ["h3-plain"]
 RULES = "C15-a Huffman tables vs RFC 7541 App. B (A11); C15-b integer accumulator bound and truncation (A6/A15); C15-c codec entry points (A11)"
 
 HERE = os.path.dirname(os.path.dirname(os.path.abspath(__file__)))
